@@ -6,12 +6,24 @@
 (* One action per public API call.  The bodies follow what the code does   *)
 (* (publisher.rs send_sample / force_update_connections /                  *)
 (* deliver_sample_history, sender.rs deliver_offset / allocate /           *)
-(* retrieve_returned_chunks / remove_connection, receiver.rs receive,      *)
+(* retrieve_returned_chunks / remove_connection, receiver.rs receive /     *)
+(* update_connection / prepare_connection_removal,                         *)
 (* zero_copy_connection/common.rs try_send / blocking_send / receive /     *)
 (* release / reclaim / acquire_used_offsets) wherever the property fixes   *)
 (* the outcome, and are nondeterministic wherever it does not (which       *)
 (* connection a receive serves, which free chunk a loan returns, which of  *)
-(* several applicable creation errors is reported).                        *)
+(* several applicable creation errors is reported, which borrow-free       *)
+(* expired connection is sacrificed when the expired-connection buffer     *)
+(* overflows).                                                             *)
+(*                                                                         *)
+(* A call that runs user code in the middle (SampleMut::send invoking the  *)
+(* unable-to-deliver / backpressure handler between the reclaim of the     *)
+(* returned chunks and the push into a full buffer) exists twice: as ONE   *)
+(* action (Send, handler without side effects) and SPLIT into one action   *)
+(* per critical section (SendBegin, Deliver, BpCall, BpRet, SendEnd) so    *)
+(* that calls made from inside the handler - or, in the model checking     *)
+(* instances with ConcurrentSub, by a subscriber running concurrently -    *)
+(* are explained between the sub-steps.                                    *)
 (*                                                                         *)
 (* Ports are INSTANCES: publisher p in PubIds and subscriber s in SubIds   *)
 (* are created at most once ("new" -> "live" -> "dead"); a reconnect is a  *)
@@ -27,6 +39,18 @@
 (*   bor  ids received and not yet released (Sample objects alive)         *)
 (*   cq   ids released by the subscriber, not yet reclaimed by p           *)
 (* sq, bor, cq together are the connection's used-chunk list.              *)
+(*                                                                         *)
+(* Connection updates happen only when the peer registry changed since the *)
+(* port's last update (pdirty / sdirty = the change counter comparison of  *)
+(* Container::update_state).                                               *)
+(*                                                                         *)
+(* FAULTS (environment actions): BreakSeg(p) - the data segment of a live  *)
+(* publisher disappears from the system (new receivers cannot map it);     *)
+(* Occupy(p,s) - the sender side of the connection p->s is taken by a      *)
+(* foreign sender before p attached.  Specified behaviour: the faulty pair *)
+(* delivers nothing, EVERY OTHER PAIR BEHAVES AS WITHOUT THE FAULT, the    *)
+(* call that ran the failing update returns ConnectionFailure iff the      *)
+(* port's degradation handler answers DegradeAndFail (pdeg/sdeg = "fail"). *)
 (*                                                                         *)
 (* Chunk layer: ck[p] maps every sample id of p that still has a holder    *)
 (* to [c |-> chunk index, rc |-> reference counter]; the counter is        *)
@@ -44,21 +68,30 @@ CONSTANTS PubIds, SubIds,       \* instance numbers
 
 VARIABLES cfg,      \* QoS of the service of the current run
           pst, pn,  \* publisher instance state ("new","live","dead"), number of chunks
+          pdeg, pdirty, \* degradation mode ("warn","ignore","fail"), subscriber registry changed since last update
+          segb,     \* fault: data segment of the publisher was removed from the system
           sst, sbuf, sreq, \* subscriber state ("new","live","abandoned","dead"), buffer, history request
-          conn, hist, loans, ck, nextid,
+          sdeg, sdirty,
+          conn,
+          occ,      \* fault: the sender side of the connection is occupied by a foreign sender
+          hist, loans, ck, nextid,
+          snd,      \* the send call in progress (split form), see NoSend
           out,      \* observable result of the last call
           slog, regAt, rcvd, evicted,  \* ghost history (property layer)
+          xlost,    \* ghost: expired connections sacrificed because the expired-connection buffer was full
           kd        \* tags of KNOWN-DEFECT shapes an execution went through (see AllowKnown)
 
-sysvars   == <<cfg, pst, pn, sst, sbuf, sreq, conn, hist, loans, ck, nextid>>
-ghostvars == <<slog, regAt, rcvd, evicted, kd>>
-vars      == <<cfg, pst, pn, sst, sbuf, sreq, conn, hist, loans, ck, nextid, out, slog, regAt, rcvd, evicted, kd>>
+sysvars   == <<cfg, pst, pn, pdeg, pdirty, segb, sst, sbuf, sreq, sdeg, sdirty, conn, occ, hist, loans, ck, nextid, snd>>
+ghostvars == <<slog, regAt, rcvd, evicted, xlost, kd>>
+vars      == <<cfg, pst, pn, pdeg, pdirty, segb, sst, sbuf, sreq, sdeg, sdirty, conn, occ, hist, loans, ck, nextid, snd,
+               out, slog, regAt, rcvd, evicted, xlost, kd>>
 
 Pairs == PubIds \X SubIds
 
 -----------------------------------------------------------------------------
 \* helpers
 Min2(a, b) == IF a < b THEN a ELSE b
+Max2(a, b) == IF a < b THEN b ELSE a
 Min3(a, b, c) == Min2(a, Min2(b, c))
 Range(f) == {f[i] : i \in DOMAIN f}
 LastN(q, n) == SubSeq(q, Len(q) - n + 1, Len(q))
@@ -74,10 +107,12 @@ IsSubseq(a, b) ==
 NoDup(q) == \A i, j \in DOMAIN q : i # j => q[i] # q[j]
 IsSuffix(a, b) == Len(a) <= Len(b) /\ a = LastN(b, Len(a))
 
+DegModes == {"warn", "ignore", "fail"}
 QosOK(q) == /\ q.maxpubs \in Nat \ {0} /\ q.maxsubs \in Nat \ {0} /\ q.bufmax \in Nat \ {0}
             /\ q.hist \in Nat /\ q.borrow \in Nat \ {0} /\ q.loan \in Nat
             /\ q.overflow \in BOOLEAN
             /\ q.strategy \in {"discard", "retry_fail", "retry_discard"}
+            /\ q.expbuf \in Nat
 
 EmptyConn == [pa |-> FALSE, sa |-> FALSE, sq |-> <<>>, bor |-> {}, cq |-> {}]
 C(p, s) == conn[<<p, s>>]
@@ -113,8 +148,21 @@ FalseValue == FALSE
 KD_SampleLost == "sample-lost"
 KD_BorrowPerConn == "borrow-per-connection"
 
+\* model checking switches (overridden per instance)
+FaultsOn == FALSE           \* BreakSeg / Occupy are part of the next-state relation
+SplitSendOn == FALSE        \* the split form of send is part of the next-state relation
+ConcurrentSub == FALSE      \* subscriber calls may happen between ANY two sub-steps of a split send
+DegChoices == {"warn"}      \* degradation modes tried by the create actions
+CqExtra == 1                \* completion queue capacity minus (buffer + max borrow), READ FROM THE CODE
+
 NoOut == [a |-> "none"]
 EmptyMap == [x \in {} |-> 0]
+NoSend == [on |-> FALSE, p |-> 0, id |-> 0, pend |-> {}, acc |-> {}, rej |-> {}, blk |-> {},
+           fail |-> FALSE, err |-> FALSE, cur |-> 0, ph |-> "idle", k |-> 0]
+Idle == ~snd.on
+\* calls of a subscriber are possible outside of a send, from inside the unable-to-deliver handler, and
+\* (model checking only) concurrently to a send
+NestOK == ~snd.on \/ snd.ph = "call" \/ ConcurrentSub
 
 -----------------------------------------------------------------------------
 \* initial state / reset
@@ -122,45 +170,72 @@ InitWith(q) ==
     /\ cfg = q
     /\ pst = TLCEval([p \in PubIds |-> "new"])
     /\ pn = TLCEval([p \in PubIds |-> 0])
+    /\ pdeg = TLCEval([p \in PubIds |-> "warn"])
+    /\ pdirty = TLCEval([p \in PubIds |-> FALSE])
+    /\ segb = TLCEval([p \in PubIds |-> FALSE])
     /\ sst = TLCEval([s \in SubIds |-> "new"])
     /\ sbuf = TLCEval([s \in SubIds |-> 0])
     /\ sreq = TLCEval([s \in SubIds |-> 0])
+    /\ sdeg = TLCEval([s \in SubIds |-> "warn"])
+    /\ sdirty = TLCEval([s \in SubIds |-> FALSE])
     /\ conn = TLCEval([x \in Pairs |-> EmptyConn])
+    /\ occ = TLCEval([x \in Pairs |-> FALSE])
     /\ hist = TLCEval([p \in PubIds |-> <<>>])
     /\ loans = TLCEval([p \in PubIds |-> {}])
     /\ ck = TLCEval([p \in PubIds |-> EmptyMap])
     /\ nextid = 1
+    /\ snd = NoSend
     /\ out = NoOut
     /\ slog = TLCEval([p \in PubIds |-> <<>>])
     /\ regAt = TLCEval([x \in Pairs |-> 0])
     /\ rcvd = TLCEval([x \in Pairs |-> <<>>])
     /\ evicted = TLCEval([x \in Pairs |-> {}])
+    /\ xlost = {}
     /\ kd = {}
 
 Reset(q) ==
     /\ cfg' = q
     /\ pst' = TLCEval([p \in PubIds |-> "new"])
     /\ pn' = TLCEval([p \in PubIds |-> 0])
+    /\ pdeg' = TLCEval([p \in PubIds |-> "warn"])
+    /\ pdirty' = TLCEval([p \in PubIds |-> FALSE])
+    /\ segb' = TLCEval([p \in PubIds |-> FALSE])
     /\ sst' = TLCEval([s \in SubIds |-> "new"])
     /\ sbuf' = TLCEval([s \in SubIds |-> 0])
     /\ sreq' = TLCEval([s \in SubIds |-> 0])
+    /\ sdeg' = TLCEval([s \in SubIds |-> "warn"])
+    /\ sdirty' = TLCEval([s \in SubIds |-> FALSE])
     /\ conn' = TLCEval([x \in Pairs |-> EmptyConn])
+    /\ occ' = TLCEval([x \in Pairs |-> FALSE])
     /\ hist' = TLCEval([p \in PubIds |-> <<>>])
     /\ loans' = TLCEval([p \in PubIds |-> {}])
     /\ ck' = TLCEval([p \in PubIds |-> EmptyMap])
     /\ nextid' = 1
+    /\ snd' = NoSend
     /\ out' = NoOut
     /\ slog' = TLCEval([p \in PubIds |-> <<>>])
     /\ regAt' = TLCEval([x \in Pairs |-> 0])
     /\ rcvd' = TLCEval([x \in Pairs |-> <<>>])
     /\ evicted' = TLCEval([x \in Pairs |-> {}])
+    /\ xlost' = {}
     /\ kd' = {}
 
+\* every live port of the other kind notices a registry change at its next update
+MarkSubs == TLCEval([s \in SubIds |-> IF sst[s] = "live" THEN TRUE ELSE sdirty[s]])
+MarkPubs == TLCEval([p \in PubIds |-> IF pst[p] = "live" THEN TRUE ELSE pdirty[p]])
+
 -----------------------------------------------------------------------------
-\* publisher side connection update (force_update_connections)
+\* publisher side connection update (update_connections -> force_update_connections, only when the
+\* subscriber registry changed since the last update)
 PaSubs(p) == {s \in SubIds : C(p, s).pa}
-Stale(p)  == {s \in PaSubs(p) : ~Registered(s)}           \* receiver vanished: remove_connection
-NewS(p)   == {s \in RegS : ~C(p, s).pa}                    \* registered, not yet connected
+Stale(p)  == IF pdirty[p] THEN {s \in PaSubs(p) : ~Registered(s)} ELSE {}   \* receiver vanished: remove_connection
+NewAll(p) == IF pdirty[p] THEN {s \in RegS : ~C(p, s).pa} ELSE {}           \* registered, not yet connected
+\* fault: the connection cannot be established (sender side already occupied); it stays unconnected,
+\* the degradation handler decides whether the update reports a failure; all other connections are
+\* updated as usual
+OccFaulty(p) == {s \in NewAll(p) : occ[<<p, s>>]}
+NewS(p)   == NewAll(p) \ OccFaulty(p)
+PubFails(p) == pdeg[p] = "fail" /\ OccFaulty(p) # {}
 \* history replay: the newest min(history_request, buffer) samples, oldest first
 HPart(p, s) == LastN(hist[p], Min3(sreq[s], sbuf[s], Len(hist[p])))
 \* deliver_sample_history calls retrieve_returned_chunks before every history sample
@@ -178,41 +253,69 @@ DUpdate(p, reclaim, x) ==
     - Card({s \in Stale(p) : x \in Used(C(p, s))})
     + Card({s \in NewS(p) : x \in Range(HPart(p, s))})
 
-\* subscriber side connection update: attaches the receiver side to every registered publisher
-SubAttach(cn, s) ==
-    TLCEval([x \in Pairs |-> IF x[2] = s /\ pst[x[1]] = "live" THEN [cn[x] EXCEPT !.sa = TRUE] ELSE cn[x]])
+\* subscriber side connection update (only when the publisher registry changed since the last update):
+\* attaches the receiver side to every registered publisher whose data segment can be mapped, and moves
+\* the connections of vanished publishers that still hold data or borrows into the expired-connection
+\* buffer of max(subscriber_expired_connection_buffer, max_borrowed_samples) entries.  When that buffer
+\* is full a connection WITHOUT BORROWS is sacrificed (documented loss: its undelivered samples); a
+\* connection from which samples are still held is never dropped.
+SegFaulty(s) == IF sdirty[s] THEN {p \in LiveP : segb[p] /\ ~C(p, s).sa} ELSE {}
+SubFails(s) == sdeg[s] = "fail" /\ SegFaulty(s) # {}
+ExpAll(s) == {p \in PubIds : pst[p] = "dead" /\ conn[<<p, s>>] # EmptyConn}
+WithBorrows(s) == {p \in ExpAll(s) : C(p, s).bor # {}}
+ExpCap == Max2(cfg.expbuf, cfg.borrow)
+KeepChoices(s) ==
+    IF ~sdirty[s] \/ Card(ExpAll(s)) <= ExpCap THEN {ExpAll(s)}
+    ELSE {K \in SUBSET ExpAll(s) : Card(K) = ExpCap /\ WithBorrows(s) \subseteq K}
+SubUpd(s, K) ==
+    TLCEval([x \in Pairs |->
+        IF x[2] # s \/ ~sdirty[s] THEN conn[x]
+        ELSE IF pst[x[1]] = "live"
+             THEN (IF segb[x[1]] /\ ~conn[x].sa THEN conn[x] ELSE [conn[x] EXCEPT !.sa = TRUE])
+        ELSE IF x[1] \in ExpAll(s) \ K THEN EmptyConn
+        ELSE conn[x]])
+Sacrificed(s, K) == IF sdirty[s] THEN {<<p, s>> : p \in ExpAll(s) \ K} ELSE {}
 
 -----------------------------------------------------------------------------
 \* actions
 
-CreatePublisher(p, n) ==
+CreatePublisher(p, n, d) ==
+    /\ Idle
     /\ pst[p] = "new"
+    /\ d \in DegModes
     /\ IF Card(LiveP) >= cfg.maxpubs
-       THEN /\ out' = [a |-> "create_pub", p |-> p, r |-> "ExceedsMaxSupportedPublishers"]
+       THEN /\ out' = [a |-> "create_pub", p |-> p, deg |-> d, r |-> "ExceedsMaxSupportedPublishers"]
             /\ UNCHANGED <<sysvars, ghostvars>>
        ELSE /\ pst' = [pst EXCEPT ![p] = "live"]
             /\ pn' = [pn EXCEPT ![p] = n]
+            /\ pdeg' = [pdeg EXCEPT ![p] = d]
+            /\ pdirty' = [pdirty EXCEPT ![p] = FALSE]
+            /\ sdirty' = MarkSubs
             \* force_update_connections of the new port: connects to every registered subscriber,
             \* the history is still empty
             /\ conn' = TLCEval([x \in Pairs |-> IF x[1] = p /\ Registered(x[2])
                                          THEN [conn[x] EXCEPT !.pa = TRUE] ELSE conn[x]])
-            /\ out' = [a |-> "create_pub", p |-> p, r |-> "ok"]
-            /\ UNCHANGED <<cfg, sst, sbuf, sreq, hist, loans, ck, nextid, ghostvars>>
+            /\ out' = [a |-> "create_pub", p |-> p, deg |-> d, r |-> "ok"]
+            /\ UNCHANGED <<cfg, segb, sst, sbuf, sreq, sdeg, occ, hist, loans, ck, nextid, snd, ghostvars>>
 
 \* precondition: every loan was returned before (the driver drops them first)
 \* The sender sides go away; a connection that still holds data or borrows survives on the subscriber side
 \* (expired connection) and stays receivable.  Known-defect shape "sample-lost": the connections whose
-\* receiver side is not attached yet are destroyed together with their samples.
-Unattached(p) == {s \in SubIds : C(p, s).pa /\ ~C(p, s).sa /\ sst[s] = "live" /\ C(p, s).sq # <<>>}
+\* receiver side is not attached yet are destroyed together with their samples.  A connection the
+\* subscriber could never attach to because the data segment is gone (fault) delivers nothing.
+MustLose(p) == {s \in SubIds : segb[p] /\ C(p, s).pa /\ ~C(p, s).sa}
+Unattached(p) == {s \in SubIds \ MustLose(p) : C(p, s).pa /\ ~C(p, s).sa /\ sst[s] = "live" /\ C(p, s).sq # <<>>}
 DropPublisher(p) ==
+    /\ Idle
     /\ pst[p] = "live"
     /\ loans[p] = {}
     /\ pst' = [pst EXCEPT ![p] = "dead"]
+    /\ sdirty' = MarkSubs
     /\ \E lose \in (IF AllowKnown /\ Unattached(p) # {} THEN {FALSE, TRUE} ELSE {FALSE}) :
         /\ conn' = TLCEval([x \in Pairs |->
                       IF x[1] # p THEN conn[x]
                       ELSE LET c == conn[x] IN
-                           IF lose /\ x[2] \in Unattached(p) THEN EmptyConn
+                           IF x[2] \in MustLose(p) \/ (lose /\ x[2] \in Unattached(p)) THEN EmptyConn
                            ELSE IF c.pa /\ sst[x[2]] = "live" /\ (c.sq # <<>> \/ c.bor # {})
                            THEN [c EXCEPT !.pa = FALSE, !.sa = TRUE, !.cq = {}]
                            ELSE IF c.pa /\ c.sa /\ sst[x[2]] = "abandoned"
@@ -222,7 +325,8 @@ DropPublisher(p) ==
     /\ hist' = [hist EXCEPT ![p] = <<>>]
     /\ ck' = [ck EXCEPT ![p] = EmptyMap]
     /\ out' = [a |-> "drop_pub", p |-> p]
-    /\ UNCHANGED <<cfg, pn, sst, sbuf, sreq, loans, nextid, slog, regAt, rcvd, evicted>>
+    /\ UNCHANGED <<cfg, pn, pdeg, pdirty, segb, sst, sbuf, sreq, sdeg, occ, loans, nextid, snd,
+                   slog, regAt, rcvd, evicted, xlost>>
 
 SubCreateErrors(b, r) ==
     (IF b > cfg.bufmax THEN {"BufferSizeExceedsMaxSupportedBufferSizeOfService"} ELSE {})
@@ -230,37 +334,69 @@ SubCreateErrors(b, r) ==
     \cup (IF r > b THEN {"HistoryRequestExceedsBufferSizeOfSubscriber"} ELSE {})
     \cup (IF Card(RegS) >= cfg.maxsubs THEN {"ExceedsMaxSupportedSubscribers"} ELSE {})
 
-CreateSubscriber(s, b, r) ==
+\* the new port attaches to every registered publisher whose data segment can be mapped; a failure of
+\* this first update is only logged, whatever the degradation handler says
+CreateSubscriber(s, b, r, d) ==
+    /\ Idle
     /\ sst[s] = "new"
     /\ b >= 1
+    /\ d \in DegModes
     /\ IF SubCreateErrors(b, r) # {}
-       THEN /\ \E e \in SubCreateErrors(b, r) : out' = [a |-> "create_sub", s |-> s, buf |-> b, req |-> r, r |-> e]
+       THEN /\ \E e \in SubCreateErrors(b, r) : out' = [a |-> "create_sub", s |-> s, buf |-> b, req |-> r, deg |-> d, r |-> e]
             /\ UNCHANGED <<sysvars, ghostvars>>
        ELSE /\ sst' = [sst EXCEPT ![s] = "live"]
             /\ sbuf' = [sbuf EXCEPT ![s] = b]
             /\ sreq' = [sreq EXCEPT ![s] = r]
-            /\ conn' = SubAttach(conn, s)
+            /\ sdeg' = [sdeg EXCEPT ![s] = d]
+            /\ sdirty' = [sdirty EXCEPT ![s] = FALSE]
+            /\ pdirty' = MarkPubs
+            /\ conn' = TLCEval([x \in Pairs |-> IF x[2] = s /\ pst[x[1]] = "live" /\ ~segb[x[1]]
+                                         THEN [conn[x] EXCEPT !.sa = TRUE] ELSE conn[x]])
             /\ regAt' = TLCEval([x \in Pairs |-> IF x[2] = s THEN Len(slog[x[1]]) ELSE regAt[x]])
-            /\ out' = [a |-> "create_sub", s |-> s, buf |-> b, req |-> r, r |-> "ok"]
-            /\ UNCHANGED <<cfg, pst, pn, hist, loans, ck, nextid, slog, rcvd, evicted, kd>>
+            /\ out' = [a |-> "create_sub", s |-> s, buf |-> b, req |-> r, deg |-> d, r |-> "ok"]
+            /\ UNCHANGED <<cfg, pst, pn, pdeg, segb, occ, hist, loans, ck, nextid, snd, slog, rcvd, evicted, xlost, kd>>
 
 \* Samples may still be alive (they keep the receiver alive); the publisher reclaims everything
 \* the vanished subscriber owned at its next connection update.
 DropSubscriber(s) ==
+    /\ Idle
     /\ sst[s] = "live"
     /\ sst' = [sst EXCEPT ![s] = "dead"]
+    /\ pdirty' = MarkPubs
     /\ conn' = TLCEval([x \in Pairs |->
                   IF x[2] # s THEN conn[x]
                   ELSE IF conn[x].pa THEN [conn[x] EXCEPT !.sa = FALSE] ELSE EmptyConn])
     /\ out' = [a |-> "drop_sub", s |-> s]
-    /\ UNCHANGED <<cfg, pst, pn, sbuf, sreq, hist, loans, ck, nextid, ghostvars>>
+    /\ UNCHANGED <<cfg, pst, pn, pdeg, segb, sbuf, sreq, sdeg, sdirty, occ, hist, loans, ck, nextid, snd, ghostvars>>
 
 \* the subscriber is leaked (Abandonable::abandon): it stays registered and attached for ever
 AbandonSubscriber(s) ==
+    /\ Idle
     /\ sst[s] = "live"
     /\ sst' = [sst EXCEPT ![s] = "abandoned"]
     /\ out' = [a |-> "abandon_sub", s |-> s]
-    /\ UNCHANGED <<cfg, pst, pn, sbuf, sreq, conn, hist, loans, ck, nextid, ghostvars>>
+    /\ UNCHANGED <<cfg, pst, pn, pdeg, pdirty, segb, sbuf, sreq, sdeg, sdirty, conn, occ, hist, loans, ck, nextid, snd,
+                   ghostvars>>
+
+\* ---- faults (environment) ----
+BreakSeg(p) ==
+    /\ Idle
+    /\ pst[p] = "live"
+    /\ ~segb[p]
+    /\ segb' = [segb EXCEPT ![p] = TRUE]
+    /\ out' = [a |-> "break_seg", p |-> p]
+    /\ UNCHANGED <<cfg, pst, pn, pdeg, pdirty, sst, sbuf, sreq, sdeg, sdirty, conn, occ, hist, loans, ck, nextid, snd,
+                   ghostvars>>
+
+Occupy(p, s) ==
+    /\ Idle
+    /\ pst[p] = "live" /\ sst[s] = "live"
+    /\ ~C(p, s).pa
+    /\ ~occ[<<p, s>>]
+    /\ occ' = [occ EXCEPT ![<<p, s>>] = TRUE]
+    /\ out' = [a |-> "occupy", p |-> p, s |-> s]
+    /\ UNCHANGED <<cfg, pst, pn, pdeg, pdirty, segb, sst, sbuf, sreq, sdeg, sdirty, conn, hist, loans, ck, nextid, snd,
+                   ghostvars>>
 
 \* retrieve_returned_chunks: reclaim the completion queue of every connection of p
 Reclaimed(p) == TLCEval([x \in Pairs |-> IF x[1] = p /\ conn[x].pa THEN [conn[x] EXCEPT !.cq = {}] ELSE conn[x]])
@@ -268,6 +404,7 @@ DReclaim(p, x) == - Card({s \in PaSubs(p) : x \in C(p, s).cq})
 
 \* Loan: `c` is the chunk the allocator hands out (any chunk without a holder)
 Loan(p, c) ==
+    /\ Idle
     /\ pst[p] = "live"
     /\ conn' = Reclaimed(p)
     /\ IF Card(loans[p]) >= cfg.loan
@@ -281,18 +418,20 @@ Loan(p, c) ==
             /\ loans' = [loans EXCEPT ![p] = @ \cup {nextid}]
             /\ nextid' = nextid + 1
             /\ out' = [a |-> "loan", p |-> p, r |-> "ok", id |-> nextid]
-    /\ UNCHANGED <<cfg, pst, pn, sst, sbuf, sreq, hist, ghostvars>>
+    /\ UNCHANGED <<cfg, pst, pn, pdeg, pdirty, segb, sst, sbuf, sreq, sdeg, sdirty, occ, hist, snd, ghostvars>>
 
 DropLoan(p, id) ==
+    /\ Idle
     /\ id \in loans[p]
     /\ loans' = [loans EXCEPT ![p] = @ \ {id}]
     /\ ck' = [ck EXCEPT ![p] = Apply(@, LAMBDA x : - B(x = id))]
     /\ out' = [a |-> "drop_loan", p |-> p, id |-> id]
-    /\ UNCHANGED <<cfg, pst, pn, sst, sbuf, sreq, conn, hist, nextid, ghostvars>>
+    /\ UNCHANGED <<cfg, pst, pn, pdeg, pdirty, segb, sst, sbuf, sreq, sdeg, sdirty, conn, occ, hist, nextid, snd, ghostvars>>
 
 \* loan until failure, then drop everything that was loaned by the probe
 \* cs = chunk indices handed out to the probe loans
 ProbeLoans(p, cs) ==
+    /\ Idle
     /\ pst[p] = "live"
     /\ conn' = Reclaimed(p)
     /\ LET m == Apply(ck[p], LAMBDA x : DReclaim(p, x))
@@ -302,22 +441,40 @@ ProbeLoans(p, cs) ==
        /\ NoDup(cs)
        /\ Range(cs) \cap {m[x].c : x \in DOMAIN m} = {}
        /\ out' = [a |-> "probe", p |-> p, cnt |-> k, r |-> "ExceedsMaxLoans"]
-    /\ UNCHANGED <<cfg, pst, pn, sst, sbuf, sreq, hist, loans, nextid, ghostvars>>
+    /\ UNCHANGED <<cfg, pst, pn, pdeg, pdirty, segb, sst, sbuf, sreq, sdeg, sdirty, occ, hist, loans, nextid, snd, ghostvars>>
 
 \* explicit Publisher::update_connections
 UpdatePub(p) ==
+    /\ Idle
     /\ pst[p] = "live"
     /\ LET rec == ReclaimOnUpdate(p) IN
        /\ conn' = TLCEval([x \in Pairs |-> IF x[1] = p THEN ConnAfterUpdate(p, x[2], rec) ELSE conn[x]])
        /\ ck' = [ck EXCEPT ![p] = Apply(@, LAMBDA x : DUpdate(p, rec, x))]
-    /\ out' = [a |-> "update_pub", p |-> p]
-    /\ UNCHANGED <<cfg, pst, pn, sst, sbuf, sreq, hist, loans, nextid, ghostvars>>
+    /\ pdirty' = [pdirty EXCEPT ![p] = FALSE]
+    /\ out' = [a |-> "update_pub", p |-> p, r |-> IF PubFails(p) THEN "ConnectionFailure" ELSE "ok"]
+    /\ UNCHANGED <<cfg, pst, pn, pdeg, segb, sst, sbuf, sreq, sdeg, sdirty, occ, hist, loans, nextid, snd, ghostvars>>
 
-\* SampleMut::send
+\* a send whose connection update fails (fault + DegradeAndFail): the healthy connections are updated,
+\* nothing is delivered or added to the history, the sample is released
+SendFailsUpdate(p, id, release) ==
+    LET rec == ReclaimOnUpdate(p) IN
+    /\ conn' = TLCEval([x \in Pairs |-> IF x[1] = p THEN ConnAfterUpdate(p, x[2], rec) ELSE conn[x]])
+    /\ ck' = [ck EXCEPT ![p] = Apply(@, LAMBDA x : DUpdate(p, rec, x) - B(release /\ x = id))]
+    /\ pdirty' = [pdirty EXCEPT ![p] = FALSE]
+
+\* SampleMut::send as one action (the unable-to-deliver handler has no side effects: it answers Retry
+\* once and then gives up)
 Send(p, id) ==
+    /\ Idle
     /\ pst[p] = "live"
     /\ id \in loans[p]
-    /\ LET row1(s) == ConnAfterUpdate(p, s, TRUE)
+    /\ IF PubFails(p)
+       THEN /\ SendFailsUpdate(p, id, TRUE)
+            /\ loans' = [loans EXCEPT ![p] = @ \ {id}]
+            /\ out' = [a |-> "send", p |-> p, id |-> id, r |-> "ConnectionFailure", n |-> 0, blk |-> 0]
+            /\ UNCHANGED <<hist, slog, evicted>>
+       ELSE
+       LET row1(s) == ConnAfterUpdate(p, s, TRUE)
            T == {s \in SubIds : row1(s).pa}
            Full(s) == Len(row1(s).sq) >= sbuf[s]
            Accept(s) == ~Full(s) \/ cfg.overflow
@@ -343,44 +500,151 @@ Send(p, id) ==
        /\ hist' = [hist EXCEPT ![p] = IF cfg.hist = 0 THEN <<>>
                                       ELSE Append(IF hev # 0 THEN Tail(@) ELSE @, id)]
        /\ ck' = [ck EXCEPT ![p] = Apply(@, d)]
+       /\ pdirty' = [pdirty EXCEPT ![p] = FALSE]
        /\ loans' = [loans EXCEPT ![p] = @ \ {id}]
        /\ out' = [a |-> "send", p |-> p, id |-> id, r |-> res, n |-> IF res = "ok" THEN Card(acc) ELSE 0, blk |-> Card(blk)]
        /\ slog' = [slog EXCEPT ![p] = Append(@, [id |-> id, acc |-> acc, rej |-> rej,
                                                   n |-> IF res = "ok" THEN Card(acc) ELSE -1])]
        /\ evicted' = TLCEval([x \in Pairs |-> IF x[1] = p /\ x[2] \in T /\ Ev(x[2]) # 0
                                        THEN evicted[x] \cup {Ev(x[2])} ELSE evicted[x]])
-    /\ UNCHANGED <<cfg, pst, pn, sst, sbuf, sreq, nextid, regAt, rcvd, kd>>
+    /\ UNCHANGED <<cfg, pst, pn, pdeg, segb, sst, sbuf, sreq, sdeg, sdirty, occ, nextid, snd, regAt, rcvd, xlost, kd>>
 
-\* connections of s that hold data / from which a receive is possible (after its connection update)
-WithData(s) == {p \in PubIds : C(p, s).sq # <<>>}
+\* ---- SampleMut::send, split: one action per critical section ----
+\* SendBegin  update_connections (+ history replay to new connections), add_sample_to_history,
+\*            retrieve_returned_chunks
+\* Deliver(s) deliver_offset_to_connection_impl for one connection whose delivery needs no handler call
+\*            (silent: nothing is observable before the call returns)
+\* BpCall     the unable-to-deliver handler is invoked for connection s (buffer full, no safe overflow,
+\*            receiver attached); while it runs, calls of subscribers are explained by their own actions
+\* BpRet(a)   the handler returns Retry / DiscardData / DiscardDataAndFail; after Retry the buffer is
+\*            examined again, after DiscardData try_send is attempted once more (common.rs blocking_send)
+\* SendEnd    the SampleMut is released, the call returns
+SP == snd.p
+SFull(s) == Len(C(SP, s).sq) >= sbuf[s]
+
+SendBegin(p, id) ==
+    /\ Idle
+    /\ pst[p] = "live"
+    /\ id \in loans[p]
+    /\ IF PubFails(p)
+       THEN /\ SendFailsUpdate(p, id, FALSE)
+            /\ snd' = [NoSend EXCEPT !.on = TRUE, !.p = p, !.id = id, !.err = TRUE]
+            /\ hist' = hist
+       ELSE LET row1(s) == ConnAfterUpdate(p, s, TRUE)
+                hev == IF cfg.hist > 0 /\ Len(hist[p]) >= cfg.hist THEN Head(hist[p]) ELSE 0
+                d(x) == DUpdate(p, TRUE, x) + B(x = id /\ cfg.hist > 0) - B(hev # 0 /\ x = hev) IN
+            /\ conn' = TLCEval([x \in Pairs |-> IF x[1] = p THEN row1(x[2]) ELSE conn[x]])
+            /\ hist' = [hist EXCEPT ![p] = IF cfg.hist = 0 THEN <<>>
+                                           ELSE Append(IF hev # 0 THEN Tail(@) ELSE @, id)]
+            /\ ck' = [ck EXCEPT ![p] = Apply(@, d)]
+            /\ pdirty' = [pdirty EXCEPT ![p] = FALSE]
+            /\ snd' = [NoSend EXCEPT !.on = TRUE, !.p = p, !.id = id, !.pend = {s \in SubIds : row1(s).pa}]
+    /\ out' = [a |-> "send_begin", p |-> p, id |-> id]
+    /\ UNCHANGED <<cfg, pst, pn, pdeg, segb, sst, sbuf, sreq, sdeg, sdirty, occ, loans, nextid, ghostvars>>
+
+\* the offset is pushed into the connection of s (try_send succeeded)
+Push(s) ==
+    LET c == C(SP, s)
+        ev == IF SFull(s) THEN Head(c.sq) ELSE 0 IN
+    /\ conn' = [conn EXCEPT ![<<SP, s>>] = [@ EXCEPT !.sq = Append(IF SFull(s) THEN Tail(@) ELSE @, snd.id)]]
+    /\ ck' = [ck EXCEPT ![SP] = Apply(@, LAMBDA x : B(x = snd.id) - B(ev # 0 /\ x = ev))]
+    /\ evicted' = IF ev # 0 THEN [evicted EXCEPT ![<<SP, s>>] = @ \cup {ev}] ELSE evicted
+    /\ snd' = [snd EXCEPT !.acc = @ \cup {s}, !.pend = @ \ {s}, !.ph = "idle", !.cur = 0, !.k = 0]
+Rej(s, fail) ==
+    /\ snd' = [snd EXCEPT !.rej = @ \cup {s}, !.pend = @ \ {s}, !.ph = "idle", !.cur = 0, !.k = 0,
+                          !.fail = @ \/ fail]
+    /\ UNCHANGED <<conn, ck, evicted>>
+NeedsHandler(s) == SFull(s) /\ ~cfg.overflow /\ cfg.strategy # "discard" /\ C(SP, s).sa
+
+Deliver(s) ==
+    /\ snd.on /\ ~snd.err
+    /\ \/ snd.ph = "idle" /\ s \in snd.pend
+       \/ snd.ph = "wait" /\ snd.cur = s
+    /\ IF ~SFull(s) \/ cfg.overflow THEN Push(s)
+       ELSE /\ ~NeedsHandler(s)
+            /\ Rej(s, FALSE)
+    /\ out' = [a |-> "deliver", s |-> s]
+    /\ UNCHANGED <<cfg, pst, pn, pdeg, pdirty, segb, sst, sbuf, sreq, sdeg, sdirty, occ, hist, loans, nextid,
+                   slog, regAt, rcvd, xlost, kd>>
+
+BpCall(s) ==
+    /\ snd.on /\ ~snd.err
+    /\ \/ snd.ph = "idle" /\ s \in snd.pend
+       \/ snd.ph = "wait" /\ snd.cur = s
+    /\ NeedsHandler(s)
+    /\ snd' = [snd EXCEPT !.ph = "call", !.cur = s, !.k = @ + 1, !.blk = @ \cup {s}]
+    /\ out' = [a |-> "bp", s |-> s, k |-> snd.k]
+    /\ UNCHANGED <<cfg, pst, pn, pdeg, pdirty, segb, sst, sbuf, sreq, sdeg, sdirty, conn, occ, hist, loans, ck, nextid,
+                   ghostvars>>
+
+BpRet(act) ==
+    /\ snd.on /\ snd.ph = "call"
+    /\ LET s == snd.cur IN
+       CASE act = "retry"   -> IF SFull(s) /\ C(SP, s).sa
+                               THEN snd' = [snd EXCEPT !.ph = "wait"] /\ UNCHANGED <<conn, ck, evicted>>
+                               ELSE Push(s)
+         [] act = "discard" -> IF SFull(s) THEN Rej(s, FALSE) ELSE Push(s)
+         [] act = "fail"    -> cfg.strategy = "retry_fail" /\ Rej(s, TRUE)
+         [] OTHER -> FALSE
+    /\ out' = [a |-> "bp_ret", act |-> act]
+    /\ UNCHANGED <<cfg, pst, pn, pdeg, pdirty, segb, sst, sbuf, sreq, sdeg, sdirty, occ, hist, loans, nextid,
+                   slog, regAt, rcvd, xlost, kd>>
+
+SendEnd ==
+    /\ snd.on /\ snd.pend = {} /\ snd.ph = "idle"
+    /\ LET p == snd.p
+           id == snd.id
+           res == IF snd.err THEN "ConnectionFailure" ELSE IF snd.fail THEN "UnableToDeliver" ELSE "ok" IN
+       /\ loans' = [loans EXCEPT ![p] = @ \ {id}]
+       /\ ck' = [ck EXCEPT ![p] = Apply(@, LAMBDA x : - B(x = id))]
+       /\ slog' = IF snd.err THEN slog
+                  ELSE [slog EXCEPT ![p] = Append(@, [id |-> id, acc |-> snd.acc, rej |-> snd.rej,
+                                                      n |-> IF res = "ok" THEN Card(snd.acc) ELSE -1])]
+       /\ out' = [a |-> "send_end", p |-> p, id |-> id, r |-> res, n |-> IF res = "ok" THEN Card(snd.acc) ELSE 0,
+                  blk |-> Card(snd.blk)]
+    /\ snd' = NoSend
+    /\ UNCHANGED <<cfg, pst, pn, pdeg, pdirty, segb, sst, sbuf, sreq, sdeg, sdirty, conn, occ, hist, nextid,
+                   regAt, rcvd, evicted, xlost, kd>>
+
+\* connections of s from which a receive is possible after its connection update (cn)
+WithData(cn, s) == {p \in PubIds : cn[<<p, s>>].sa /\ cn[<<p, s>>].sq # <<>>}
 BorrowedBy(s) == UNION {C(p, s).bor : p \in PubIds}
 \* documented: a subscriber borrows at most cfg.borrow samples in parallel
-Eligible(s) == IF Card(BorrowedBy(s)) < cfg.borrow THEN WithData(s) ELSE {}
+Eligible(cn, s) == IF Card(BorrowedBy(s)) < cfg.borrow THEN WithData(cn, s) ELSE {}
 \* known-defect shape "borrow-per-connection": the limit is only enforced per connection
-EligibleKnown(s) == IF AllowKnown /\ Eligible(s) = {}
-                    THEN {p \in WithData(s) : Card(C(p, s).bor) < cfg.borrow} ELSE {}
+EligibleKnown(cn, s) == IF AllowKnown /\ Eligible(cn, s) = {}
+                        THEN {p \in WithData(cn, s) : Card(C(p, s).bor) < cfg.borrow} ELSE {}
 
 \* Subscriber::receive; p = the connection that is served (unspecified which one)
 Receive(s, p) ==
+    /\ NestOK
     /\ sst[s] = "live"
-    /\ IF Eligible(s) \cup EligibleKnown(s) # {}
-       THEN /\ p \in Eligible(s) \cup EligibleKnown(s)
-            /\ LET id == Head(C(p, s).sq) IN
-               /\ conn' = [SubAttach(conn, s) EXCEPT ![<<p, s>>] =
-                              [@ EXCEPT !.sq = Tail(@), !.bor = @ \cup {id}]]
-               /\ rcvd' = [rcvd EXCEPT ![<<p, s>>] = Append(@, id)]
-               /\ out' = [a |-> "recv", s |-> s, r |-> "some", p |-> p, id |-> id]
-            /\ kd' = IF Eligible(s) = {} THEN kd \cup {KD_BorrowPerConn} ELSE kd
-       ELSE /\ conn' = SubAttach(conn, s)
-            /\ rcvd' = rcvd
-            /\ kd' = kd
-            /\ out' = [a |-> "recv", s |-> s, r |-> IF WithData(s) # {} THEN "ExceedsMaxBorrows" ELSE "none",
-                       p |-> 0, id |-> 0]
-    /\ UNCHANGED <<cfg, pst, pn, sst, sbuf, sreq, hist, loans, ck, nextid, slog, regAt, evicted>>
+    /\ \E K \in KeepChoices(s) :
+       LET cn == SubUpd(s, K) IN
+       /\ xlost' = xlost \cup Sacrificed(s, K)
+       /\ IF SubFails(s)
+          THEN /\ conn' = cn /\ rcvd' = rcvd /\ kd' = kd
+               /\ out' = [a |-> "recv", s |-> s, r |-> "ConnectionFailure", p |-> 0, id |-> 0]
+          ELSE IF Eligible(cn, s) \cup EligibleKnown(cn, s) # {}
+          THEN /\ p \in Eligible(cn, s) \cup EligibleKnown(cn, s)
+               /\ LET id == Head(cn[<<p, s>>].sq) IN
+                  /\ conn' = [cn EXCEPT ![<<p, s>>] = [@ EXCEPT !.sq = Tail(@), !.bor = @ \cup {id}]]
+                  /\ rcvd' = [rcvd EXCEPT ![<<p, s>>] = Append(@, id)]
+                  /\ out' = [a |-> "recv", s |-> s, r |-> "some", p |-> p, id |-> id]
+               /\ kd' = IF Eligible(cn, s) = {} THEN kd \cup {KD_BorrowPerConn} ELSE kd
+          ELSE /\ conn' = cn
+               /\ rcvd' = rcvd
+               /\ kd' = kd
+               /\ out' = [a |-> "recv", s |-> s, r |-> IF WithData(cn, s) # {} THEN "ExceedsMaxBorrows" ELSE "none",
+                          p |-> 0, id |-> 0]
+    /\ sdirty' = [sdirty EXCEPT ![s] = FALSE]
+    /\ UNCHANGED <<cfg, pst, pn, pdeg, pdirty, segb, sst, sbuf, sreq, sdeg, occ, hist, loans, ck, nextid, snd,
+                   slog, regAt, evicted>>
 
 \* drop of a Sample; also legal after the subscriber was dropped (the Sample keeps the receiver
 \* alive) - then it has an effect only while the publisher has not yet removed the connection
 DropSample(s, id) ==
+    /\ NestOK
     /\ sst[s] \in {"live", "dead"}
     /\ IF \E p \in PubIds : id \in C(p, s).bor
        THEN LET p == CHOOSE q \in PubIds : id \in C(q, s).bor
@@ -391,19 +655,32 @@ DropSample(s, id) ==
        ELSE /\ sst[s] = "dead"
             /\ conn' = conn
     /\ out' = [a |-> "drop_sample", s |-> s, id |-> id]
-    /\ UNCHANGED <<cfg, pst, pn, sst, sbuf, sreq, hist, loans, ck, nextid, ghostvars>>
+    /\ UNCHANGED <<cfg, pst, pn, pdeg, pdirty, segb, sst, sbuf, sreq, sdeg, sdirty, occ, hist, loans, ck, nextid, snd,
+                   ghostvars>>
 
 UpdateSub(s) ==
+    /\ NestOK
     /\ sst[s] = "live"
-    /\ conn' = SubAttach(conn, s)
-    /\ out' = [a |-> "update_sub", s |-> s]
-    /\ UNCHANGED <<cfg, pst, pn, sst, sbuf, sreq, hist, loans, ck, nextid, ghostvars>>
+    /\ \E K \in KeepChoices(s) :
+       /\ conn' = SubUpd(s, K)
+       /\ xlost' = xlost \cup Sacrificed(s, K)
+    /\ sdirty' = [sdirty EXCEPT ![s] = FALSE]
+    /\ out' = [a |-> "update_sub", s |-> s, r |-> IF SubFails(s) THEN "ConnectionFailure" ELSE "ok"]
+    /\ UNCHANGED <<cfg, pst, pn, pdeg, pdirty, segb, sst, sbuf, sreq, sdeg, occ, hist, loans, ck, nextid, snd,
+                   slog, regAt, rcvd, evicted, kd>>
 
 HasSamples(s) ==
+    /\ NestOK
     /\ sst[s] = "live"
-    /\ conn' = SubAttach(conn, s)
-    /\ out' = [a |-> "has", s |-> s, v |-> B(WithData(s) # {})]
-    /\ UNCHANGED <<cfg, pst, pn, sst, sbuf, sreq, hist, loans, ck, nextid, ghostvars>>
+    /\ \E K \in KeepChoices(s) :
+       LET cn == SubUpd(s, K) IN
+       /\ conn' = cn
+       /\ xlost' = xlost \cup Sacrificed(s, K)
+       /\ out' = IF SubFails(s) THEN [a |-> "has", s |-> s, r |-> "ConnectionFailure", v |-> 0]
+                 ELSE [a |-> "has", s |-> s, r |-> "ok", v |-> B(WithData(cn, s) # {})]
+    /\ sdirty' = [sdirty EXCEPT ![s] = FALSE]
+    /\ UNCHANGED <<cfg, pst, pn, pdeg, pdirty, segb, sst, sbuf, sreq, sdeg, occ, hist, loans, ck, nextid, snd,
+                   slog, regAt, rcvd, evicted, kd>>
 
 -----------------------------------------------------------------------------
 \* model checking: next-state relation over small instances
@@ -427,9 +704,9 @@ MCProbe(p) ==
     /\ ProbeLoans(p, SortedSeq(KSmallest(free, k)))
 
 \* one named action per API call (TLC's coverage is reported per name)
-ACreatePublisher == \E p \in NextNewP : CreatePublisher(p, NChunks)
+ACreatePublisher == \E p \in NextNewP, d \in DegChoices : CreatePublisher(p, NChunks, d)
 ADropPublisher == \E p \in PubIds : DropPublisher(p)
-ACreateSubscriber == \E s \in NextNewS, b \in BufChoices, r \in ReqChoices : CreateSubscriber(s, b, r)
+ACreateSubscriber == \E s \in NextNewS, b \in BufChoices, r \in ReqChoices, d \in DegChoices : CreateSubscriber(s, b, r, d)
 ADropSubscriber == \E s \in SubIds : DropSubscriber(s)
 ALoan == \E p \in PubIds : pst[p] = "live" /\ MCLoan(p)
 ASend == \E p \in PubIds : \E id \in loans[p] : Send(p, id)
@@ -440,11 +717,20 @@ AUpdatePub == \E p \in PubIds : UpdatePub(p)
 AUpdateSub == \E s \in SubIds : UpdateSub(s)
 AHasSamples == \E s \in SubIds : HasSamples(s)
 AProbeLoans == \E p \in PubIds : pst[p] = "live" /\ MCProbe(p)
+ABreakSeg == FaultsOn /\ \E p \in PubIds : BreakSeg(p)
+AOccupy == FaultsOn /\ \E p \in PubIds, s \in SubIds : Occupy(p, s)
+ASendBegin == SplitSendOn /\ cfg.strategy # "discard" /\ ~cfg.overflow /\ \E p \in PubIds : \E id \in loans[p] : SendBegin(p, id)
+ADeliver == \E s \in SubIds : Deliver(s)
+ABpCall == \E s \in SubIds : snd.k < 2 /\ BpCall(s)
+ABpRet == \E act \in {"retry", "discard", "fail"} : (act = "retry" => snd.k < 2) /\ BpRet(act)
+ASendEnd == SendEnd
 
 MCNext ==
     \/ ACreatePublisher \/ ADropPublisher \/ ACreateSubscriber \/ ADropSubscriber
     \/ ALoan \/ ASend \/ ADropLoan \/ AReceive \/ ADropSample
     \/ AUpdatePub \/ AUpdateSub \/ AHasSamples \/ AProbeLoans
+    \/ ABreakSeg \/ AOccupy
+    \/ ASendBegin \/ ADeliver \/ ABpCall \/ ABpRet \/ ASendEnd
 
 MCInit == InitWith(Q)
 MCSpec == MCInit /\ [][MCNext]_vars
@@ -466,14 +752,22 @@ ConnOK(c) == /\ c.pa \in BOOLEAN /\ c.sa \in BOOLEAN
              /\ Range(c.sq) \cap c.bor = {} /\ Range(c.sq) \cap c.cq = {} /\ c.bor \cap c.cq = {}
 TypeOK ==
     /\ QosOK(cfg)
-    /\ \A p \in PubIds : pst[p] \in {"new", "live", "dead"}
-    /\ \A s \in SubIds : sst[s] \in {"new", "live", "abandoned", "dead"}
+    /\ \A p \in PubIds : pst[p] \in {"new", "live", "dead"} /\ pdeg[p] \in DegModes /\ pdirty[p] \in BOOLEAN
+                         /\ segb[p] \in BOOLEAN
+    /\ \A s \in SubIds : sst[s] \in {"new", "live", "abandoned", "dead"} /\ sdeg[s] \in DegModes /\ sdirty[s] \in BOOLEAN
     /\ \A x \in Pairs : x \in ActivePairs \/ conn[x] = EmptyConn
+    /\ \A x \in Pairs : occ[x] \in BOOLEAN
     /\ \A x \in ActivePairs : ConnOK(conn[x])
     /\ \A p \in PubIds : \A x \in DOMAIN ck[p] : ck[p][x].rc >= 1
     /\ \A p \in PubIds : pst[p] # "live" => loans[p] = {} /\ hist[p] = <<>> /\ DOMAIN ck[p] = {}
+    /\ snd.on \in BOOLEAN /\ snd.ph \in {"idle", "call", "wait"}
+    /\ snd.on => /\ pst[snd.p] = "live" /\ snd.id \in loans[snd.p]
+                 /\ snd.acc \cap snd.rej = {} /\ snd.pend \cap (snd.acc \cup snd.rej) = {}
+                 /\ (snd.ph # "idle" => snd.cur \in snd.pend)
 
 \* ---- C01 ----
+\* (stated at the boundaries of the outermost call: while a send is in progress its sample is in some
+\* buffers and not yet in the log)
 \* what subscriber s is entitled to see from publisher p: the requested part of the history as of
 \* its registration, followed by everything sent afterwards
 SentIds(p) == [i \in DOMAIN slog[p] |-> slog[p][i].id]
@@ -485,11 +779,12 @@ Expected(p, s) ==
 Observable(p, s) == sst[s] = "live" /\ (C(p, s).pa \/ (pst[p] = "dead" /\ C(p, s).sa))
 
 Order ==
+    Idle =>
     \A x \in ActivePairs : /\ NoDup(rcvd[x])
                      /\ IsSubseq(rcvd[x], Expected(x[1], x[2]))
 
 LossOverflow ==
-    cfg.overflow =>
+    Idle /\ cfg.overflow =>
     \A x \in ActivePairs : Observable(x[1], x[2]) =>
         LET E == Expected(x[1], x[2])
             q == conn[x].sq IN
@@ -500,7 +795,7 @@ LossOverflow ==
 
 LogEntry(p, y) == slog[p][CHOOSE i \in DOMAIN slog[p] : slog[p][i].id = y]
 LossNoOverflow ==
-    ~cfg.overflow =>
+    Idle /\ ~cfg.overflow =>
     \A x \in ActivePairs : Observable(x[1], x[2]) =>
         LET E == Expected(x[1], x[2])
             q == conn[x].sq IN
@@ -519,8 +814,15 @@ Recipients ==
         /\ e.n < 0 => cfg.strategy = "retry_fail" /\ e.rej # {} /\ ~cfg.overflow
         /\ cfg.overflow => e.rej = {}
 
+\* has_samples <=> some attached connection (active or expired) holds data
 HasSamplesIff ==
-    [][out'.a = "has" => ((out'.v = 1) <=> (\E p \in PubIds : conn'[<<p, out'.s>>].sq # <<>>))]_vars
+    [][out'.a = "has" /\ out'.r = "ok" =>
+          ((out'.v = 1) <=> (\E p \in PubIds : conn'[<<p, out'.s>>].sa /\ conn'[<<p, out'.s>>].sq # <<>>))]_vars
+
+\* a fault of one pair never removes a sample from, or adds one to, another pair: with faults the
+\* delivery invariants above are stated over ALL pairs; the faulty pair itself only ever delivers nothing
+FaultyPairQuiet ==
+    \A x \in ActivePairs : (occ[x] /\ ~conn[x].pa) => conn[x].sq = <<>> /\ conn[x].bor = {} /\ rcvd[x] = <<>>
 
 \* ---- C02 ----
 Holders(p, x) ==
@@ -535,9 +837,16 @@ Conservation == \A p \in LiveP : Card(FreeChunks(p)) + Card(DOMAIN ck[p]) = pn[p
 
 \* ---- C08 ----
 ChunksSuffice == \A p \in LiveP : Card(DOMAIN ck[p]) <= pn[p]
-UsedBound == \A p \in LiveP : \A s \in PaSubs(p) : Card(Used(C(p, s))) <= sbuf[s] + cfg.borrow
-\* inside: a publisher below its loan limit can always loan up to the limit (never OutOfMemory)
-LoanInside == \A p \in LiveP : pn[p] - Card(DOMAIN ck[p]) >= cfg.loan - Card(loans[p])
+\* what a receiver can own at most: a full buffer, its borrows, and one more sample that was pushed after
+\* it had returned all of these between the sender's reclaim and its push
+UsedBound == \A p \in LiveP : \A s \in PaSubs(p) : Card(Used(C(p, s))) <= sbuf[s] + cfg.borrow + 1
+\* a release never fails for lack of queue space: the completion queue (capacity buffer + max borrow +
+\* CqExtra, CqExtra read from the running code) holds everything the receiver can return between two reclaims
+CqFits == \A p \in LiveP : \A s \in PaSubs(p) : Card(C(p, s).cq) <= sbuf[s] + cfg.borrow + CqExtra
+\* inside: a publisher below its loan limit can always loan up to the limit (never OutOfMemory); a loan
+\* first reclaims what the receivers returned
+IdsAfterReclaim(p) == {x \in DOMAIN ck[p] : ck[p][x].rc + DReclaim(p, x) # 0}
+LoanInside == \A p \in LiveP : pn[p] - Card(IdsAfterReclaim(p)) >= cfg.loan - Card(loans[p])
 LimitsRespected ==
     /\ Card(LiveP) <= cfg.maxpubs
     /\ Card(RegS) <= cfg.maxsubs
@@ -545,12 +854,18 @@ LimitsRespected ==
     /\ \A x \in ActivePairs : Card(conn[x].bor) <= cfg.borrow
     /\ KD_BorrowPerConn \notin kd => \A s \in SubIds : Card(BorrowedBy(s)) <= cfg.borrow
     /\ \A x \in ActivePairs : conn[x].pa \/ conn[x].sa => Len(conn[x].sq) <= sbuf[x[2]]
+    /\ \A s \in SubIds : sst[s] = "live" /\ ~sdirty[s] => Card(ExpAll(s)) <= ExpCap
 \* beyond: a rejected call has no side effect on anything observable
 Errors == {"ExceedsMaxSupportedPublishers", "ExceedsMaxSupportedSubscribers", "ExceedsMaxLoans",
            "ExceedsMaxBorrows", "BufferSizeExceedsMaxSupportedBufferSizeOfService",
            "HistoryRequestExceedsHistorySizeOfService", "HistoryRequestExceedsBufferSizeOfSubscriber"}
-Obs == <<pst, sst, sbuf, sreq, hist, loans, nextid, [x \in Pairs |-> <<conn[x].sq, conn[x].bor>>]>>
-BeyondUnchanged == [][("r" \in DOMAIN out' /\ out'.r \in Errors /\ out'.a # "probe") => Obs' = Obs]_vars
+\* (the connection update that precedes a rejected receive may sacrifice expired connections - masked)
+ObsOf(ps, ss, sb, sr, hi, lo, ni, cn, mask) ==
+    <<ps, ss, sb, sr, hi, lo, ni, [x \in Pairs |-> IF x \in mask THEN <<>> ELSE <<cn[x].sq, cn[x].bor>>]>>
+BeyondUnchanged ==
+    [][("r" \in DOMAIN out' /\ out'.r \in Errors /\ out'.a # "probe") =>
+          ObsOf(pst', sst', sbuf', sreq', hist', loans', nextid', conn', xlost' \ xlost)
+          = ObsOf(pst, sst, sbuf, sreq, hist, loans, nextid, conn, xlost' \ xlost)]_vars
 \* beyond, then one unit freed: the same call succeeds (state predicates used by the trap/cover runs)
 CanLoan(p) == pst[p] = "live" /\ Card(loans[p]) < cfg.loan
 =============================================================================
